@@ -342,7 +342,7 @@ def decide_obligation(ob, tier, pool=None):
     if ob.get("paths_truncated"):
         o.result, o.detail = C.UNDECIDED, "path enumeration truncated (more than 4096 decision vectors)"
         return o
-    if ob["name"].startswith(("c16_forward_vs_published", "c16_inverse_vs_published", "c16_xyz_roundtrip")) or os.environ.get("PV_CANON") == "1":
+    if ob["name"].startswith(("c16_forward_vs_published", "c16_inverse_vs_published", "c16_xyz_roundtrip", "c02_xyz_to_oklab_ray", "c01_xyz_oklab_xyz_ray")) or os.environ.get("PV_CANON") == "1":
         from . import canon
         o.extra["dag_nodes_before_canonicalisation"] = len(ob["nodes"])
         o.extra["canonicalisation_rules"] = canon.canonicalise(ob, rational=ob["name"].startswith("c16_inverse_vs_published") or os.environ.get("PV_CANON_RATIONAL") == "1")
